@@ -247,6 +247,10 @@ func genIP(t *rapid.T) pcase {
 	addrs := []string{"10.1.2.3", "10.200.0.1", "192.168.1.7", "192.168.1.8", "2001:db8::5", "2001:db9::5", "::1", "127.0.0.1", "8.8.8.8", "::ffff:10.1.2.3"}
 	a := netip.MustParseAddr(addrs[rapid.IntRange(0, len(addrs)-1).Draw(t, "addr")])
 	tcp := &net.TCPAddr{IP: net.IP(a.AsSlice()), Port: rapid.IntRange(1, 65535).Draw(t, "port")}
+	if a.Is4() && rapid.Bool().Draw(t, "sixteenByteForm") {
+		// the same IPv4 address as net.ParseIP and a dual-stack listener hold it (it still prints as dotted IPv4)
+		tcp.IP = tcp.IP.To16()
+	}
 	name := "local_ip"
 	c := pcase{in: []byte("x"), class: "filtered", remote: mx.TCPRemote, local: mx.TCPLocal}
 	if remoteSide {
@@ -465,6 +469,9 @@ func genRDP(t *rapid.T) pcase {
 	p := mx.GenRDPParts(t)
 	cfg := map[string]any{}
 	filter := rapid.IntRange(0, 5).Draw(t, "filter")
+	if p.TokenIP != nil && rapid.IntRange(0, 3).Draw(t, "portBeyond16Bits") == 0 {
+		p.TokenPortHigh = rapid.IntRange(1, 9).Draw(t, "portHigh")
+	}
 	switch filter {
 	case 1:
 		cfg["cookie_hash"] = pick(t, "hash", "user1", p.Cookie, "x")
@@ -551,6 +558,12 @@ func genRDP(t *rapid.T) pcase {
 			c.want, c.why = must, "mstshash cookie matches cookie_hash_regexp"
 		} else {
 			c.want, c.why = mustNot, "no mstshash cookie matching cookie_hash_regexp"
+		}
+	case p.TokenPortHigh > 0:
+		// "msts=<ip>.<port>.0000" with a port field that is no 16-bit number is no routing token
+		c.want, c.why = unspecified, "malformed routing token without a token filter"
+		if filter == 3 {
+			c.want, c.why = mustNot, "the port field of the routing token is not a 16-bit number, so there is no token with an allowed IP and port"
 		}
 	case filter == 3:
 		okIP := p.TokenIP != nil && prefixContains(cfg["cookie_ips"].([]string), netip.AddrFrom4(*p.TokenIP))
